@@ -49,12 +49,21 @@ def applyMirror (t : Target) (req : Bytes) (src : Stored) (o : Outcome Unit) (ev
   | .err c => (.err c, t)
   | .panic w => (.panic w, t)
 
+/-- the first probe of `CreateMirror`: is W already there?  At a content-addressed address an object is taken for W (the
+    address is made from the hash; not re-verified, to be fast when run repeatedly).  At a single address (`file://`,
+    `http://`) the object may be any ware: it is read through and counts only if it scans to W (since the `fix:`;
+    before, any object counted — the known finding `mirror-noop-other-ware`). -/
+def Target.holds (H : Bytes → Bytes) (t : Target) (req : Bytes) : Bool :=
+  match t.lookup req with
+  | none => false
+  | some s => t.kind = .ca || decide (scanId H s = .ok req)
+
 /-- `CreateMirror` against a target store; `src` is the object the picked source serves (`pick` says whether one
     was picked at all). Returns the answer and the target afterwards. -/
 def mirrorStore (H : Bytes → Bytes) (req : Bytes) (t : Target) (writerOk : Bool) (pick : PickRes) (src : Stored)
     (commitOk : Bool) : Outcome Unit × Target :=
-  applyMirror t req src (mirror H req (t.lookup req).isSome writerOk pick src.hdrs src.fin src.head commitOk).1
-    (mirror H req (t.lookup req).isSome writerOk pick src.hdrs src.fin src.head commitOk).2
+  applyMirror t req src (mirror H req (t.holds H req) writerOk pick src.hdrs src.fin src.head commitOk).1
+    (mirror H req (t.holds H req) writerOk pick src.hdrs src.fin src.head commitOk).2
 
 /-- what a fetch of `id` from the target alone finds: `wrapUnpacker`'s comparison -/
 def fetchAlone (H : Bytes → Bytes) (t : Target) (id : Bytes) : Outcome Unit :=
